@@ -472,7 +472,7 @@ func backendClosed(kind string, publishes int, stopHow string) vs.Scenario {
 }
 
 func build(tier string) ([]runner.Instance, time.Duration) {
-	bound, budget := 1, 100*time.Second
+	bound, budget := 1, 130*time.Second
 	maxM := 2
 	if tier == "thorough" {
 		bound, budget, maxM = 2, 14*time.Minute, 3
